@@ -39,8 +39,6 @@ var c02r10NonNarrowing = map[string]string{
 	"(*pilot/pkg/xds.DiscoveryServer).AdsPushAll":              "replaces a nil key set by an empty one",
 	"pilot/pkg/xds.configsUpdated":                             "log text",
 	"pilot/pkg/xds.debounce":                                   "chooses WHEN an endpoints-only event is pushed (un-debounced fast path) and what the log line says; the request itself is handed on whole",
-	"(*pilot/pkg/xds.DiscoveryServer).pushXds":                 "log level of the push line (after the push was sent)",
-	"(*pilot/pkg/xds.DiscoveryServer).pushDeltaXds":            "log level of the push line (after the push was sent)",
 	"(*pilot/pkg/xds.DiscoveryServer).computeProxyState":       "additive: the loop over the keys only ever SETS reset flags, and the forced case set them before the loop (C01-R5 checks the flags)",
 	"(pilot/pkg/xds.CollectionGenerator).GenerateDeltas":       "krt-backed collections (agentgateway) change only through their own per-key events; a forced push carries no information about them and a (re)connecting client is served in full through IsRequest",
 }
@@ -419,6 +417,8 @@ func c02r10(c *Ctx) {
 			how = "under a not-forced edge"
 		case a.handedOnWithForced(fa):
 			how = "handed to a callee together with the Forced flag"
+		case afterSend(fn, fa):
+			how = "after the response was sent (log level of the push line): nothing is left to narrow"
 		}
 		name := "keys of a request are read only once it is known not to be forced: " + stableFnName(fn)
 		if how != "" {
@@ -496,5 +496,25 @@ func (a *forcedAn) handedOnWithForced(fa *ssa.FieldAddr) bool {
 			ok = true
 		}
 	}
+	return ok
+}
+
+
+// afterSend: the read is dominated by the call that puts the response on the wire (xds.Send / Connection.sendDelta).
+func afterSend(fn *ssa.Function, fa *ssa.FieldAddr) bool {
+	ok := false
+	eachInstr(fn, func(ins ssa.Instruction) {
+		call, isCall := ins.(*ssa.Call)
+		if !isCall {
+			return
+		}
+		o := calleeObj(call)
+		if o == nil || (o.Name() != "Send" && o.Name() != "sendDelta") || o.Pkg() == nil || !strings.HasSuffix(o.Pkg().Path(), "pkg/xds") {
+			return
+		}
+		if call.Block() == fa.Block() && instrIndex(call) < instrIndex(fa) || call.Block() != fa.Block() && call.Block().Dominates(fa.Block()) {
+			ok = true
+		}
+	})
 	return ok
 }
